@@ -3,25 +3,36 @@ EXTENDS ClientResp
 
 CONSTANTS Types
 
-VARIABLES phase, cfg, h, b, cx
-vars == <<phase, cfg, h, b, cx>>
+VARIABLES phase, cfg, h, b, cx, ms
+vars == <<phase, cfg, h, b, cx, ms>>
+
+CONSTANT MaxOps
 
 Cfgs == { [reg |-> r, star |-> s, default |-> d, defForm |-> f] : r \in SUBSET Types, s \in BOOLEAN, d \in Types, f \in DefForms }
 Hdrs == { [form |-> f, t |-> t] : f \in Forms, t \in Types }
 
 Init == phase = "pick" /\ cfg = [reg |-> {}, star |-> FALSE, default |-> CHOOSE t \in Types : TRUE, defForm |-> "plain"]
         /\ h = [form |-> "absent", t |-> CHOOSE t \in Types : TRUE] /\ b = BInit
-        /\ cx = [op |-> "nil", rt |-> "nil"]
+        /\ cx = [op |-> "nil", rt |-> "nil"] /\ ms = CInitM
 
-PickCfg == phase = "pick" /\ b = BInit /\ \E x \in Cfgs : cfg' = x /\ phase' = "hdr" /\ UNCHANGED <<h, b, cx>>
-PickHdr == phase = "hdr" /\ \E x \in Hdrs : h' = x /\ phase' = "checked" /\ UNCHANGED <<cfg, b, cx>>
+PickCfg == phase = "pick" /\ b = BInit /\ \E x \in Cfgs : cfg' = x /\ phase' = "hdr" /\ UNCHANGED <<h, b, cx, ms>>
+PickHdr == phase = "hdr" /\ \E x \in Hdrs : h' = x /\ phase' = "checked" /\ UNCHANGED <<cfg, b, cx, ms>>
 \* part B runs from the initial phase as an independent branch
-Step(i) == phase = "pick" /\ \E t \in BNext(b, i) : b' = t /\ UNCHANGED <<phase, cfg, h, cx>>
+Step(i) == phase = "pick" /\ \E t \in BNext(b, i) : b' = t /\ UNCHANGED <<phase, cfg, h, cx, ms>>
 
 \* the context lattice is a third independent branch
-PickCtx == phase = "pick" /\ b = BInit /\ \E o \in OpCtxKinds, r \in RtCtxKinds : cx' = [op |-> o, rt |-> r] /\ phase' = "ctx" /\ UNCHANGED <<cfg, h, b>>
+PickCtx == phase = "pick" /\ b = BInit /\ \E o \in OpCtxKinds, r \in RtCtxKinds : cx' = [op |-> o, rt |-> r] /\ phase' = "ctx" /\ UNCHANGED <<cfg, h, b, ms>>
 
-Next == PickCfg \/ PickHdr \/ PickCtx \/ \E i \in Callers : Step(i)
+\* several Runtimes alive at once, reconfigured in place (a fourth independent branch)
+MOps == { [op |-> "new", r |-> 0, mt |-> "", id |-> ""] }
+        \cup { [op |-> "set", r |-> r, mt |-> mt, id |-> id] : r \in 1..2, mt \in {"application/json", STAR}, id \in {"x", "y"} }
+        \cup { [op |-> "del", r |-> r, mt |-> mt, id |-> ""] : r \in 1..2, mt \in {"application/json", "text/plain"} }
+MStepOp == /\ phase \in {"pick", "multi"} /\ b = BInit /\ phase' = "multi"
+           /\ Len(ms.at) + Len(ms.own) < 2 * MaxOps
+           /\ \E op \in MOps : ((op.op = "new" /\ Len(ms.at) < 2) \/ (op.op # "new" /\ op.r \in DOMAIN ms.at)) /\ ms' = MApply(ms, op)
+           /\ UNCHANGED <<cfg, h, b, cx>>
+
+Next == PickCfg \/ PickHdr \/ PickCtx \/ MStepOp \/ \E i \in Callers : Step(i)
 Spec == Init /\ [][Next]_vars /\ \A i \in Callers : WF_vars(Step(i))
 
 InvPick      == phase = "checked" => PickAllowed(cfg, h, CodePick(cfg, h))
@@ -29,6 +40,11 @@ InvCtx       == phase = "ctx" => CtxAllowed(cx.op, cx.rt, CtxSeen(CodeCtx(cx.op,
 \* mutant (must violate): an operation context equal to context.Background() is treated as unset
 BgUnset(op, rt) == IF op \notin {"nil", "background"} THEN "op" ELSE IF rt # "nil" THEN "rt" ELSE "none"
 InvBgUnset   == phase = "ctx" => CtxAllowed(cx.op, cx.rt, CtxSeen(BgUnset(cx.op, cx.rt), cx.op, cx.rt))
+InvIsolated  == Isolated(ms) /\ \A r \in DOMAIN ms.at, t \in DefaultTypes \cup {"x/unregistered"} : CodeMLookup(ms, r, t) = OwnLookup(ms, r, t)
+InvBody      == \A d \in BOOLEAN, z \in BodySizes : BodyAllowed(d, z, CodeBodySeen(d, z))
+InvDebugCaps == \A d \in BOOLEAN, z \in BodySizes : BodyAllowed(d, z, DebugCapsBody(d, z))              \* mutant: must violate
+InvStickyCtx == \A o \in BOOLEAN, c1, c2 \in BOOLEAN :                                                    \* mutant: must violate
+                  StickyOpCtxSeen(o, [id |-> 1, cancelled |-> c1]) = OpCtxSeen(o, [id |-> 2, cancelled |-> c2])
 InvWire      == phase = "ctx" => \A opc \in OpClientKinds, m, j \in BOOLEAN : WireAllowed(opc, m, j, WireSeen(CodeClient(opc), opc, m, j))
 InvRetained  == RetainedIntact(b)
 \* mutants (must violate)
